@@ -35,9 +35,9 @@ func init() { generators["C20"] = genFacade }
 
 var facadeTimeout = 1200 * time.Millisecond
 
-// watch runs f in its own goroutine: a panic is ocPanic, no answer within the timeout is ocHang
+// facadeWatch runs f in its own goroutine: a panic is ocPanic, no answer within the timeout is ocHang
 // (the goroutine is abandoned; it is parked on a channel and costs nothing).
-func watch(f func()) (outcome, string) {
+func facadeWatch(f func()) (outcome, string) {
 	type res struct {
 		oc  outcome
 		msg string
@@ -57,7 +57,7 @@ func watch(f func()) (outcome, string) {
 
 // ---------- typed generators ----------
 
-type tgen[T any] struct {
+type facadeGen[T any] struct {
 	name   string // Go type name
 	ety    string // constructor of Facade.ety
 	gen    func(r *rng) T
@@ -65,7 +65,7 @@ type tgen[T any] struct {
 	lit    func(v T) string
 }
 
-func litAny(v any) string {
+func facadeLit(v any) string {
 	switch a := v.(type) {
 	case nil:
 		return "nil"
@@ -94,7 +94,7 @@ func litAny(v any) string {
 
 var facadeWords = []string{"", "a", "b", "ab", "abc", "k1", "k2", "zeta", "alpha", "beta", "gamma", "x y", "Q", "abd", "ba", "c", "d", "e", "f", "g", "h", "i0", "j", "kk", "l", "m"}
 
-func fInt64(r *rng) int64 {
+func facadeInt64(r *rng) int64 {
 	switch r.intn(12) {
 	case 0:
 		return 9223372036854775807 - int64(r.intn(2))
@@ -104,52 +104,52 @@ func fInt64(r *rng) int64 {
 		return int64(r.intn(46)) - 6
 	}
 }
-func fUint64(r *rng) uint64 {
+func facadeUint64(r *rng) uint64 {
 	if r.intn(12) == 0 {
 		return 18446744073709551615 - uint64(r.intn(2))
 	}
 	return uint64(r.intn(40))
 }
-func fFloat64(r *rng) float64 { return float64(r.intn(90)-20) / 4 }
-func fString(r *rng) string   { return facadeWords[r.intn(len(facadeWords))] }
-func fRune(r *rng) int32      { return int32('a' + r.intn(26)) }
-func fBool(r *rng) bool       { return r.intn(2) == 0 }
-func fAnyKey(r *rng) any {
+func facadeFloat64(r *rng) float64 { return float64(r.intn(90)-20) / 4 }
+func facadeString(r *rng) string   { return facadeWords[r.intn(len(facadeWords))] }
+func facadeRune(r *rng) int32      { return int32('a' + r.intn(26)) }
+func facadeBool(r *rng) bool       { return r.intn(2) == 0 }
+func facadeAnyKey(r *rng) any {
 	switch r.intn(6) {
 	case 0:
-		return fInt64(r)
+		return facadeInt64(r)
 	case 1:
-		return fUint64(r)
+		return facadeUint64(r)
 	case 2:
-		return fFloat64(r)
+		return facadeFloat64(r)
 	case 3:
-		return fString(r)
+		return facadeString(r)
 	case 4:
-		return fRune(r)
+		return facadeRune(r)
 	default:
-		return fBool(r)
+		return facadeBool(r)
 	}
 }
-func fAny(r *rng) any {
+func facadeAny(r *rng) any {
 	if r.intn(24) == 0 {
 		return nil
 	}
-	return fAnyKey(r)
+	return facadeAnyKey(r)
 }
 
 var (
-	gInt64   = tgen[int64]{"int64", "TInt64", fInt64, fInt64, func(v int64) string { return litAny(v) }}
-	gUint64  = tgen[uint64]{"uint64", "TUint64", fUint64, fUint64, func(v uint64) string { return litAny(v) }}
-	gFloat64 = tgen[float64]{"float64", "TFloat64", fFloat64, fFloat64, func(v float64) string { return litAny(v) }}
-	gString  = tgen[string]{"string", "TString", fString, fString, func(v string) string { return litAny(v) }}
-	gRune    = tgen[int32]{"rune", "TRune", fRune, fRune, func(v int32) string { return litAny(v) }}
-	gBool    = tgen[bool]{"bool", "TBool", fBool, fBool, func(v bool) string { return litAny(v) }}
-	gAny     = tgen[any]{"any", "TAny", fAny, fAnyKey, litAny}
+	facadeGInt64   = facadeGen[int64]{"int64", "TInt64", facadeInt64, facadeInt64, func(v int64) string { return facadeLit(v) }}
+	facadeGUint64  = facadeGen[uint64]{"uint64", "TUint64", facadeUint64, facadeUint64, func(v uint64) string { return facadeLit(v) }}
+	facadeGFloat64 = facadeGen[float64]{"float64", "TFloat64", facadeFloat64, facadeFloat64, func(v float64) string { return facadeLit(v) }}
+	facadeGString  = facadeGen[string]{"string", "TString", facadeString, facadeString, func(v string) string { return facadeLit(v) }}
+	facadeGRune    = facadeGen[int32]{"rune", "TRune", facadeRune, facadeRune, func(v int32) string { return facadeLit(v) }}
+	facadeGBool    = facadeGen[bool]{"bool", "TBool", facadeBool, facadeBool, func(v bool) string { return facadeLit(v) }}
+	facadeGAny     = facadeGen[any]{"any", "TAny", facadeAny, facadeAnyKey, facadeLit}
 )
 
 // ---------- everything the generator needs about one element type, behind `any` ----------
 
-type seqOps struct {
+type facadeSeqOps struct {
 	name, ety string
 	gen       func(r *rng) any
 	slice     func(vs []any) any                // []V
@@ -161,7 +161,7 @@ type seqOps struct {
 	wrongData []any // data arguments of a neighbouring type (never accepted)
 }
 
-func toSlice[V any](vs []any) []V {
+func facadeToSlice[V any](vs []any) []V {
 	s := make([]V, len(vs))
 	for i, v := range vs {
 		if v != nil {
@@ -171,12 +171,12 @@ func toSlice[V any](vs []any) []V {
 	return s
 }
 
-func makeSeqOps[V any](g tgen[V]) *seqOps {
-	o := &seqOps{name: g.name, ety: g.ety}
+func facadeMakeSeqOps[V any](g facadeGen[V]) *facadeSeqOps {
+	o := &facadeSeqOps{name: g.name, ety: g.ety}
 	o.gen = func(r *rng) any { return g.gen(r) }
-	o.slice = func(vs []any) any { return toSlice[V](vs) }
+	o.slice = func(vs []any) any { return facadeToSlice[V](vs) }
 	o.seq = func(kind string, vs []any) any {
-		s := toSlice[V](vs)
+		s := facadeToSlice[V](vs)
 		n := cdc.Notation().Make()
 		switch kind {
 		case "Array":
@@ -256,7 +256,7 @@ func makeSeqOps[V any](g tgen[V]) *seqOps {
 				return c.MakeWithCollator(coll.(age.CollatorLike[V]))
 			case "coll+data":
 				s := c.MakeWithCollator(coll.(age.CollatorLike[V]))
-				for _, v := range toSlice[V](vals) {
+				for _, v := range facadeToSlice[V](vals) {
 					s.AddValue(v)
 				}
 				return s
@@ -291,7 +291,7 @@ func makeSeqOps[V any](g tgen[V]) *seqOps {
 	return o
 }
 
-type pairOps struct {
+type facadePairOps struct {
 	kname, vname, kety, vety string
 	genK, genV               func(r *rng) any
 	gomap                    func(ks, vs []any) any
@@ -301,12 +301,12 @@ type pairOps struct {
 	class                    func(kind, form string, n col.NotationLike, data any, k, v any) any
 }
 
-func makePairOps[K comparable, V any](gk tgen[K], gv tgen[V]) *pairOps {
-	o := &pairOps{kname: gk.name, vname: gv.name, kety: gk.ety, vety: gv.ety}
+func facadeMakePairOps[K comparable, V any](gk facadeGen[K], gv facadeGen[V]) *facadePairOps {
+	o := &facadePairOps{kname: gk.name, vname: gv.name, kety: gk.ety, vety: gv.ety}
 	o.genK = func(r *rng) any { return gk.genKey(r) }
 	o.genV = func(r *rng) any { return gv.gen(r) }
 	mkAssocs := func(ks, vs []any) []col.AssociationLike[K, V] {
-		kk, vv := toSlice[K](ks), toSlice[V](vs)
+		kk, vv := facadeToSlice[K](ks), facadeToSlice[V](vs)
 		c := col.Association[K, V](cdc.Notation().Make())
 		out := make([]col.AssociationLike[K, V], len(kk))
 		for i := range kk {
@@ -315,7 +315,7 @@ func makePairOps[K comparable, V any](gk tgen[K], gv tgen[V]) *pairOps {
 		return out
 	}
 	o.gomap = func(ks, vs []any) any {
-		kk, vv := toSlice[K](ks), toSlice[V](vs)
+		kk, vv := facadeToSlice[K](ks), facadeToSlice[V](vs)
 		m := map[K]V{}
 		for i := range kk {
 			m[kk[i]] = vv[i]
@@ -377,7 +377,7 @@ func makePairOps[K comparable, V any](gk tgen[K], gv tgen[V]) *pairOps {
 			}
 		case "Association":
 			if form == "kv" {
-				return col.Association[K, V](n).Make(toSlice[K]([]any{k})[0], toSlice[V]([]any{v})[0])
+				return col.Association[K, V](n).Make(facadeToSlice[K]([]any{k})[0], facadeToSlice[V]([]any{v})[0])
 			}
 		}
 		return nil
@@ -385,35 +385,35 @@ func makePairOps[K comparable, V any](gk tgen[K], gv tgen[V]) *pairOps {
 	return o
 }
 
-var seqTable []*seqOps
-var pairTable []*pairOps
+var facadeSeqTable []*facadeSeqOps
+var facadePairTable []*facadePairOps
 
-func addPairsFor[K comparable](gk tgen[K]) {
-	pairTable = append(pairTable,
-		makePairOps(gk, gInt64), makePairOps(gk, gUint64), makePairOps(gk, gFloat64), makePairOps(gk, gString),
-		makePairOps(gk, gRune), makePairOps(gk, gBool), makePairOps(gk, gAny))
+func facadeAddPairsFor[K comparable](gk facadeGen[K]) {
+	facadePairTable = append(facadePairTable,
+		facadeMakePairOps(gk, facadeGInt64), facadeMakePairOps(gk, facadeGUint64), facadeMakePairOps(gk, facadeGFloat64), facadeMakePairOps(gk, facadeGString),
+		facadeMakePairOps(gk, facadeGRune), facadeMakePairOps(gk, facadeGBool), facadeMakePairOps(gk, facadeGAny))
 }
 
 func facadeTables() {
-	if seqTable != nil {
+	if facadeSeqTable != nil {
 		return
 	}
-	seqTable = []*seqOps{makeSeqOps(gInt64), makeSeqOps(gUint64), makeSeqOps(gFloat64), makeSeqOps(gString),
-		makeSeqOps(gRune), makeSeqOps(gBool), makeSeqOps(gAny)}
-	addPairsFor(gInt64)
-	addPairsFor(gUint64)
-	addPairsFor(gFloat64)
-	addPairsFor(gString)
-	addPairsFor(gRune)
-	addPairsFor(gBool)
-	addPairsFor(gAny)
+	facadeSeqTable = []*facadeSeqOps{facadeMakeSeqOps(facadeGInt64), facadeMakeSeqOps(facadeGUint64), facadeMakeSeqOps(facadeGFloat64), facadeMakeSeqOps(facadeGString),
+		facadeMakeSeqOps(facadeGRune), facadeMakeSeqOps(facadeGBool), facadeMakeSeqOps(facadeGAny)}
+	facadeAddPairsFor(facadeGInt64)
+	facadeAddPairsFor(facadeGUint64)
+	facadeAddPairsFor(facadeGFloat64)
+	facadeAddPairsFor(facadeGString)
+	facadeAddPairsFor(facadeGRune)
+	facadeAddPairsFor(facadeGBool)
+	facadeAddPairsFor(facadeGAny)
 }
 
 // ---------- observation of results ----------
 
-// encValSafe: a value outside the universe (e.g. a notation object stored as a key) is written as
+// facadeEncValSafe: a value outside the universe (e.g. a notation object stored as a key) is written as
 // an opaque pointer that no model result ever equals
-func encValSafe(v any) (s string) {
+func facadeEncValSafe(v any) (s string) {
 	defer func() {
 		if e := recover(); e != nil {
 			s = "(VPtr (-1) 0)"
@@ -422,22 +422,22 @@ func encValSafe(v any) (s string) {
 	return encVal(v)
 }
 
-func callArray(rv reflect.Value) reflect.Value { return rv.MethodByName("AsArray").Call(nil)[0] }
+func facadeAsArray(rv reflect.Value) reflect.Value { return rv.MethodByName("AsArray").Call(nil)[0] }
 
-type kvs struct{ k, v string }
+type facadeKV struct{ k, v string }
 
-func pairsOf(rv reflect.Value, sorted bool) []kvs {
-	var out []kvs
+func facadePairsOf(rv reflect.Value, sorted bool) []facadeKV {
+	var out []facadeKV
 	if rv.Kind() == reflect.Map {
 		it := rv.MapRange()
 		for it.Next() {
-			out = append(out, kvs{encValSafe(it.Key().Interface()), encValSafe(it.Value().Interface())})
+			out = append(out, facadeKV{facadeEncValSafe(it.Key().Interface()), facadeEncValSafe(it.Value().Interface())})
 		}
 	} else {
-		arr := callArray(rv)
+		arr := facadeAsArray(rv)
 		for i := 0; i < arr.Len(); i++ {
 			a := arr.Index(i)
-			out = append(out, kvs{encValSafe(a.MethodByName("GetKey").Call(nil)[0].Interface()), encValSafe(a.MethodByName("GetValue").Call(nil)[0].Interface())})
+			out = append(out, facadeKV{facadeEncValSafe(a.MethodByName("GetKey").Call(nil)[0].Interface()), facadeEncValSafe(a.MethodByName("GetValue").Call(nil)[0].Interface())})
 		}
 	}
 	if sorted {
@@ -446,7 +446,7 @@ func pairsOf(rv reflect.Value, sorted bool) []kvs {
 	return out
 }
 
-func encPairs(ps []kvs) string {
+func facadeEncPairs(ps []facadeKV) string {
 	items := make([]string, len(ps))
 	for i, p := range ps {
 		items[i] = "(" + p.k + ", " + p.v + ")"
@@ -454,8 +454,8 @@ func encPairs(ps []kvs) string {
 	return encList(items)
 }
 
-// observation of a returned collection: the Gallina term of type fres, its kind and its contents
-type obsv struct {
+// observation of a returned collection: the Gallina term of type fres (Facade.v), its kind and its contents
+type facadeObs struct {
 	term      string
 	kind      string
 	contents  []string // element (or pair) encodings in order; maps sorted by key encoding
@@ -463,67 +463,67 @@ type obsv struct {
 	unordered bool
 }
 
-func observe(x any, collID int) obsv {
+func facadeObserve(x any, collID int) facadeObs {
 	rv := reflect.ValueOf(x)
 	ts := rv.Type().String()
 	elems := func(arr reflect.Value) []string {
 		out := make([]string, arr.Len())
 		for i := range out {
-			out[i] = encValSafe(arr.Index(i).Interface())
+			out[i] = facadeEncValSafe(arr.Index(i).Interface())
 		}
 		return out
 	}
 	switch {
 	case strings.HasPrefix(ts, "collection.array_"):
 		c := elems(rv)
-		return obsv{term: "(FObj (OArr " + encList(c) + "))", kind: "Array", contents: c}
+		return facadeObs{term: "(FObj (OArr " + encList(c) + "))", kind: "Array", contents: c}
 	case strings.HasPrefix(ts, "*collection.list_"):
-		c := elems(callArray(rv))
-		return obsv{term: "(FObj (OLst " + encList(c) + "))", kind: "List", contents: c}
+		c := elems(facadeAsArray(rv))
+		return facadeObs{term: "(FObj (OLst " + encList(c) + "))", kind: "List", contents: c}
 	case strings.HasPrefix(ts, "*collection.set_"):
-		c := elems(callArray(rv))
-		return obsv{term: fmt.Sprintf("(FObj (OSet %d%%nat %s))", collID, encList(c)), kind: "Set", contents: c}
+		c := elems(facadeAsArray(rv))
+		return facadeObs{term: fmt.Sprintf("(FObj (OSet %d%%nat %s))", collID, encList(c)), kind: "Set", contents: c}
 	case strings.HasPrefix(ts, "*collection.stack_"):
-		c := elems(callArray(rv))
+		c := elems(facadeAsArray(rv))
 		cap := rv.MethodByName("GetCapacity").Call(nil)[0].Uint()
-		return obsv{term: fmt.Sprintf("(FObj (OStk %d%%nat %s))", cap, encList(c)), kind: "Stack", contents: c}
+		return facadeObs{term: fmt.Sprintf("(FObj (OStk %d%%nat %s))", cap, encList(c)), kind: "Stack", contents: c}
 	case strings.HasPrefix(ts, "*collection.queue_"):
-		c := elems(callArray(rv))
+		c := elems(facadeAsArray(rv))
 		cap := rv.MethodByName("GetCapacity").Call(nil)[0].Uint()
-		return obsv{term: fmt.Sprintf("(FObj (OQue %d%%nat %s))", cap, encList(c)), kind: "Queue", contents: c}
+		return facadeObs{term: fmt.Sprintf("(FObj (OQue %d%%nat %s))", cap, encList(c)), kind: "Queue", contents: c}
 	case strings.HasPrefix(ts, "*collection.catalog_"):
-		ps := pairsOf(rv, false)
-		o := obsv{term: "(FObj (OCat " + encPairs(ps) + "))", kind: "Catalog"}
+		ps := facadePairsOf(rv, false)
+		o := facadeObs{term: "(FObj (OCat " + facadeEncPairs(ps) + "))", kind: "Catalog"}
 		for _, p := range ps {
 			o.contents = append(o.contents, "("+p.k+", "+p.v+")")
 			o.keys = append(o.keys, p.k)
 		}
 		return o
 	case strings.HasPrefix(ts, "collection.map_"):
-		ps := pairsOf(rv, true)
-		o := obsv{term: "(FObj (OMap " + encPairs(ps) + "))", kind: "Map", unordered: true}
+		ps := facadePairsOf(rv, true)
+		o := facadeObs{term: "(FObj (OMap " + facadeEncPairs(ps) + "))", kind: "Map", unordered: true}
 		for _, p := range ps {
 			o.contents = append(o.contents, "("+p.k+", "+p.v+")")
 			o.keys = append(o.keys, p.k)
 		}
 		return o
 	case strings.HasPrefix(ts, "*collection.association_"):
-		k := encValSafe(rv.MethodByName("GetKey").Call(nil)[0].Interface())
-		v := encValSafe(rv.MethodByName("GetValue").Call(nil)[0].Interface())
-		return obsv{term: "(FAssoc " + k + " " + v + ")", kind: "Association", contents: []string{k, v}}
+		k := facadeEncValSafe(rv.MethodByName("GetKey").Call(nil)[0].Interface())
+		v := facadeEncValSafe(rv.MethodByName("GetValue").Call(nil)[0].Interface())
+		return facadeObs{term: "(FAssoc " + k + " " + v + ")", kind: "Association", contents: []string{k, v}}
 	}
 	panic("observe: unsupported result type " + ts)
 }
 
 // a call's observed result
-type fres struct {
+type facadeRes struct {
 	oc  outcome
 	msg string
-	ob  obsv
+	ob  facadeObs
 	raw any
 }
 
-func (f fres) term() string {
+func (f facadeRes) term() string {
 	switch f.oc {
 	case ocRet:
 		return "(Ret " + f.ob.term + ")"
@@ -532,7 +532,7 @@ func (f fres) term() string {
 	}
 	return "Hang"
 }
-func (f fres) human() string {
+func (f facadeRes) human() string {
 	switch f.oc {
 	case ocRet:
 		return f.ob.term
@@ -547,29 +547,29 @@ func (f fres) human() string {
 }
 
 // call runs a constructor under the watchdog and observes what it returned
-func facadeCall(f func() any, collOf func(any) int) fres {
+func facadeCall(f func() any, collOf func(any) int) facadeRes {
 	var x any
-	oc, msg := watch(func() { x = f() })
-	r := fres{oc: oc, msg: msg}
+	oc, msg := facadeWatch(func() { x = f() })
+	r := facadeRes{oc: oc, msg: msg}
 	if oc == ocRet {
 		if x == nil {
-			return fres{oc: ocPanic, msg: "nil result"}
+			return facadeRes{oc: ocPanic, msg: "nil result"}
 		}
 		id := 0
 		if collOf != nil {
 			id = collOf(x)
 		}
-		r.ob = observe(x, id)
+		r.ob = facadeObserve(x, id)
 	}
 	return r
 }
 
-func sortedCopy(xs []string) []string {
+func facadeSortedCopy(xs []string) []string {
 	out := append([]string(nil), xs...)
 	sort.Strings(out)
 	return out
 }
-func dedupe(xs []string) []string {
+func facadeDedupe(xs []string) []string {
 	var out []string
 	for i, x := range xs {
 		if i == 0 || x != xs[i-1] {
@@ -578,7 +578,7 @@ func dedupe(xs []string) []string {
 	}
 	return out
 }
-func sameStrings(a, b []string) bool {
+func facadeSameStrings(a, b []string) bool {
 	if len(a) != len(b) {
 		return false
 	}
@@ -592,13 +592,13 @@ func sameStrings(a, b []string) bool {
 
 // ---------- one generated case ----------
 
-type fcase struct {
+type facadeCase struct {
 	kind, tk, tv string // Facade.fkind / ety constructors
 	call         string // human-readable call
 	args         []string
-	mod          fres
-	cls          *fres
-	parsed       *fres // result of ParseSource on the source text (nil when there is no source form to compare)
+	mod          facadeRes
+	cls          *facadeRes
+	parsed       *facadeRes // result of ParseSource on the source text (nil when there is no source form to compare)
 	cmpSrc       bool
 	cform        string // the class-level call as a Facade.cform term ("" = none)
 	form         string
@@ -608,7 +608,7 @@ type fcase struct {
 	malformed    bool
 }
 
-func (c *fcase) gallina() string {
+func (c *facadeCase) gallina() string {
 	cls := "None"
 	if c.cls != nil {
 		cls = "(Some " + c.cls.term() + ")"
@@ -625,7 +625,7 @@ func (c *fcase) gallina() string {
 		c.kind, c.tk, c.tv, encList(c.args), c.mod.term(), cls, form, b)
 }
 
-func (c *fcase) trace() []string {
+func (c *facadeCase) trace() []string {
 	t := []string{c.call, "module-level result: " + c.mod.human()}
 	if c.cls != nil {
 		t = append(t, "class-level result:  "+c.cls.human()+"   [predicate module = class: "+c.predClass+"]")
@@ -642,7 +642,7 @@ func (c *fcase) trace() []string {
 
 var facadeSizes = []int{0, 1, 2, 15, 16, 17, 20, 3, 5, 8}
 
-func goLit(v any) string {
+func facadeGoLit(v any) string {
 	switch a := v.(type) {
 	case nil:
 		return "nil"
@@ -653,15 +653,15 @@ func goLit(v any) string {
 	}
 	return fmt.Sprint(v)
 }
-func goLits(vs []any) string {
+func facadeGoLits(vs []any) string {
 	items := make([]string, len(vs))
 	for i, v := range vs {
-		items[i] = goLit(v)
+		items[i] = facadeGoLit(v)
 	}
 	return strings.Join(items, ", ")
 }
 
-func encAnys(vs []any) []string {
+func facadeEncAnys(vs []any) []string {
 	out := make([]string, len(vs))
 	for i, v := range vs {
 		out[i] = encVal(v)
@@ -670,7 +670,7 @@ func encAnys(vs []any) []string {
 }
 
 // the CDCN text of a sequence of items
-func sourceText(items []string, assoc bool, kind string, multiline bool) string {
+func facadeSourceText(items []string, assoc bool, kind string, multiline bool) string {
 	if len(items) == 0 {
 		if assoc {
 			return "[:](" + kind + ")"
@@ -684,23 +684,23 @@ func sourceText(items []string, assoc bool, kind string, multiline bool) string 
 }
 
 // the parsed collection of a source text, as the model's AString argument and for the predicate
-func parseSource(text string) (fres, string) {
+func facadeParseSource(text string) (facadeRes, string) {
 	var x any
-	oc, msg := watch(func() { x = cdc.Notation().Make().ParseSource(text) })
-	r := fres{oc: oc, msg: msg}
+	oc, msg := facadeWatch(func() { x = cdc.Notation().Make().ParseSource(text) })
+	r := facadeRes{oc: oc, msg: msg}
 	if oc != ocRet {
 		return r, "PPanic"
 	}
 	if x == nil {
-		return fres{oc: ocPanic, msg: "nil"}, "PPanic"
+		return facadeRes{oc: ocPanic, msg: "nil"}, "PPanic"
 	}
-	r.ob = observe(x, 0)
+	r.ob = facadeObserve(x, 0)
 	r.raw = x
 	return r, "(PColl " + encVal(x) + ")"
 }
 
 // arranges the notation argument
-func withNotation(pos int, n col.NotationLike, args []any, encs []string, lits []string) ([]any, []string, []string) {
+func facadeWithNotation(pos int, n col.NotationLike, args []any, encs []string, lits []string) ([]any, []string, []string) {
 	switch pos {
 	case 1:
 		return append([]any{n}, args...), append([]string{"ANotation"}, encs...), append([]string{"notation"}, lits...)
@@ -710,44 +710,44 @@ func withNotation(pos int, n col.NotationLike, args []any, encs []string, lits [
 	return args, encs, lits
 }
 
-type seqCell struct {
+type facadeSeqCell struct {
 	kind, form, srcKind string
 }
 
-var seqCells = func() []seqCell {
-	var cs []seqCell
+var facadeSeqCells = func() []facadeSeqCell {
+	var cs []facadeSeqCell
 	srcKinds := []string{"Array", "List", "Set", "Stack", "Queue"}
 	for _, k := range []string{"Array", "List", "Set", "Stack", "Queue"} {
-		cs = append(cs, seqCell{k, "none", ""}, seqCell{k, "slice", ""}, seqCell{k, "source", ""}, seqCell{k, "source", ""})
+		cs = append(cs, facadeSeqCell{k, "none", ""}, facadeSeqCell{k, "slice", ""}, facadeSeqCell{k, "source", ""}, facadeSeqCell{k, "source", ""})
 		for _, s := range srcKinds {
-			cs = append(cs, seqCell{k, "seq", s})
+			cs = append(cs, facadeSeqCell{k, "seq", s})
 		}
 		if k == "Array" || k == "Stack" || k == "Queue" {
-			cs = append(cs, seqCell{k, "sizeU", ""}, seqCell{k, "sizeI", ""})
+			cs = append(cs, facadeSeqCell{k, "sizeU", ""}, facadeSeqCell{k, "sizeI", ""})
 		}
 		if k == "Set" {
-			cs = append(cs, seqCell{k, "coll", ""}, seqCell{k, "coll+slice", ""}, seqCell{k, "coll+seq", "List"}, seqCell{k, "coll+seq", "Set"}, seqCell{k, "coll+source", ""})
+			cs = append(cs, facadeSeqCell{k, "coll", ""}, facadeSeqCell{k, "coll+slice", ""}, facadeSeqCell{k, "coll+seq", "List"}, facadeSeqCell{k, "coll+seq", "Set"}, facadeSeqCell{k, "coll+source", ""})
 		}
 	}
 	return cs
 }()
 
-type pairCell struct {
+type facadePairCell struct {
 	kind, form, srcKind string
 }
 
-var pairCells = func() []pairCell {
-	var cs []pairCell
+var facadePairCells = func() []facadePairCell {
+	var cs []facadePairCell
 	for _, k := range []string{"Catalog", "Map"} {
-		cs = append(cs, pairCell{k, "none", ""}, pairCell{k, "gomap", ""}, pairCell{k, "aslice", ""}, pairCell{k, "source", ""}, pairCell{k, "source", ""})
+		cs = append(cs, facadePairCell{k, "none", ""}, facadePairCell{k, "gomap", ""}, facadePairCell{k, "aslice", ""}, facadePairCell{k, "source", ""}, facadePairCell{k, "source", ""})
 		for _, s := range []string{"Array", "List", "Catalog", "Map"} {
-			cs = append(cs, pairCell{k, "aseq", s})
+			cs = append(cs, facadePairCell{k, "aseq", s})
 		}
 	}
 	return cs
 }()
 
-func genVals(o func(r *rng) any, n int, r *rng) []any {
+func facadeGenVals(o func(r *rng) any, n int, r *rng) []any {
 	vs := make([]any, n)
 	for i := range vs {
 		vs[i] = o(r)
@@ -759,7 +759,7 @@ func genVals(o func(r *rng) any, n int, r *rng) []any {
 	return vs
 }
 
-func sizeArg(form string, n int) (any, string, string) {
+func facadeSizeArg(form string, n int) (any, string, string) {
 	if form == "sizeI" {
 		return n, fmt.Sprintf("(AInt %d)", n), fmt.Sprintf("int(%d)", n)
 	}
@@ -767,23 +767,23 @@ func sizeArg(form string, n int) (any, string, string) {
 }
 
 // class-vs-module predicate, evaluated on the implementation
-func predicateClass(m, c fres, unorderedOK bool) string {
+func facadePredClass(m, c facadeRes, unorderedOK bool) string {
 	if m.oc != c.oc {
-		return fmt.Sprintf("VIOLATED: module-level call %s, class-level call %s", ocName(m.oc), ocName(c.oc))
+		return fmt.Sprintf("VIOLATED: module-level call %s, class-level call %s", facadeOcName(m.oc), facadeOcName(c.oc))
 	}
 	if m.oc != ocRet {
-		return "ok (both " + ocName(m.oc) + ")"
+		return "ok (both " + facadeOcName(m.oc) + ")"
 	}
 	if m.ob.term == c.ob.term {
 		return "ok"
 	}
-	if unorderedOK && m.ob.kind == c.ob.kind && sameStrings(sortedCopy(m.ob.contents), sortedCopy(c.ob.contents)) {
+	if unorderedOK && m.ob.kind == c.ob.kind && facadeSameStrings(facadeSortedCopy(m.ob.contents), facadeSortedCopy(c.ob.contents)) {
 		return "ok (order unspecified: built from an unordered Go map)"
 	}
 	return "VIOLATED: results differ"
 }
 
-func predicateSource(m, p fres, asSet bool) string {
+func facadePredSource(m, p facadeRes, asSet bool) string {
 	if p.oc != ocRet {
 		if m.oc == ocRet {
 			return "VIOLATED: ParseSource fails but the constructor returns"
@@ -791,22 +791,22 @@ func predicateSource(m, p fres, asSet bool) string {
 		return "ok (ParseSource fails, so does the constructor)"
 	}
 	if m.oc != ocRet {
-		return "VIOLATED: ParseSource returns a collection, the constructor " + ocName(m.oc) + "s"
+		return "VIOLATED: ParseSource returns a collection, the constructor " + facadeOcName(m.oc) + "s"
 	}
 	a, b := m.ob.contents, p.ob.contents
 	if asSet || m.ob.unordered || p.ob.unordered {
-		a, b = sortedCopy(a), sortedCopy(b)
+		a, b = facadeSortedCopy(a), facadeSortedCopy(b)
 	}
 	if asSet { // a set built from the source of another kind of sequence keeps one of each value
-		a, b = dedupe(a), dedupe(b)
+		a, b = facadeDedupe(a), facadeDedupe(b)
 	}
-	if sameStrings(a, b) {
+	if facadeSameStrings(a, b) {
 		return "ok"
 	}
 	return "VIOLATED: contents or order differ"
 }
 
-func ocName(o outcome) string {
+func facadeOcName(o outcome) string {
 	switch o {
 	case ocRet:
 		return "return"
@@ -816,13 +816,13 @@ func ocName(o outcome) string {
 	return "hang"
 }
 
-func pick[T any](r *rng, xs []T) T { return xs[r.intn(len(xs))] }
+func facadePick[T any](r *rng, xs []T) T { return xs[r.intn(len(xs))] }
 
 // ---------- sequence kinds ----------
 
-func runSeqCell(o *seqOps, cell seqCell, n int, npos int, r *rng, malformed int) *fcase {
-	c := &fcase{kind: "F" + cell.kind, tk: o.ety, tv: o.ety, form: cell.form, size: n}
-	vals := genVals(o.gen, n, r)
+func facadeRunSeq(o *facadeSeqOps, cell facadeSeqCell, n int, npos int, r *rng, malformed int) *facadeCase {
+	c := &facadeCase{kind: "F" + cell.kind, tk: o.ety, tv: o.ety, form: cell.form, size: n}
+	vals := facadeGenVals(o.gen, n, r)
 	notation := cdc.Notation().Make()
 	var args []any
 	var encs, lits []string
@@ -842,13 +842,13 @@ func runSeqCell(o *seqOps, cell seqCell, n int, npos int, r *rng, malformed int)
 	addSlice := func(vs []any) {
 		s := o.slice(vs)
 		args = append(args, s)
-		encs = append(encs, "(ASlice "+encList(encAnys(vs))+")")
-		lits = append(lits, "[]"+o.name+"{"+goLits(vs)+"}")
+		encs = append(encs, "(ASlice "+encList(facadeEncAnys(vs))+")")
+		lits = append(lits, "[]"+o.name+"{"+facadeGoLits(vs)+"}")
 		classData = s
 	}
 	addSeq := func(kind string, vs []any) {
 		s := o.seq(kind, vs)
-		arr := callArray(reflect.ValueOf(s))
+		arr := facadeAsArray(reflect.ValueOf(s))
 		items := make([]string, arr.Len())
 		for i := range items {
 			items[i] = encVal(arr.Index(i).Interface())
@@ -856,16 +856,16 @@ func runSeqCell(o *seqOps, cell seqCell, n int, npos int, r *rng, malformed int)
 		dataOrder = boxed(arr)
 		args = append(args, s)
 		encs = append(encs, "(ASeq K"+kind+" "+encList(items)+")")
-		lits = append(lits, kind+"["+o.name+"]{"+goLits(vs)+"}")
+		lits = append(lits, kind+"["+o.name+"]{"+facadeGoLits(vs)+"}")
 		classData = s
 	}
 	addSource := func(vs []any, kind string) {
 		items := make([]string, len(vs))
 		for i, v := range vs {
-			items[i] = litAny(v)
+			items[i] = facadeLit(v)
 		}
-		srcText = sourceText(items, false, kind, r.chance(1, 5))
-		p, enc := parseSource(srcText)
+		srcText = facadeSourceText(items, false, kind, r.chance(1, 5))
+		p, enc := facadeParseSource(srcText)
 		c.parsed = &p
 		if p.oc == ocRet && p.raw != nil {
 			if m := reflect.ValueOf(p.raw).MethodByName("AsArray"); m.IsValid() {
@@ -888,7 +888,7 @@ func runSeqCell(o *seqOps, cell seqCell, n int, npos int, r *rng, malformed int)
 	case "none":
 		classForm = "none"
 	case "sizeU", "sizeI":
-		a, e, l := sizeArg(cell.form, n)
+		a, e, l := facadeSizeArg(cell.form, n)
 		args, encs, lits = append(args, a), append(encs, e), append(lits, l)
 		classForm = "size"
 	case "slice":
@@ -900,7 +900,7 @@ func runSeqCell(o *seqOps, cell seqCell, n int, npos int, r *rng, malformed int)
 	case "source":
 		k := cell.kind
 		if malformed == 0 && r.chance(1, 8) {
-			k = pick(r, []string{"Array", "List", "Set", "Stack", "Queue"}) // a sequence of another kind is still a Sequential[any]
+			k = facadePick(r, []string{"Array", "List", "Set", "Stack", "Queue"}) // a sequence of another kind is still a Sequential[any]
 		}
 		addSource(vals, k)
 		c.cmpSrc = true
@@ -928,16 +928,16 @@ func runSeqCell(o *seqOps, cell seqCell, n int, npos int, r *rng, malformed int)
 	// malformed calls: a second data argument, an argument of an unknown type, a source whose items have another type
 	switch malformed {
 	case 1: // two data arguments (the priority of the final switch decides)
-		extra := genVals(o.gen, pick(r, []int{0, 1, 2, 3}), r)
+		extra := facadeGenVals(o.gen, facadePick(r, []int{0, 1, 2, 3}), r)
 		switch r.intn(4) {
 		case 0:
 			addSlice(extra)
 		case 1:
-			addSeq(pick(r, []string{"Array", "List", "Stack"}), extra)
+			addSeq(facadePick(r, []string{"Array", "List", "Stack"}), extra)
 		case 2:
 			addSource(extra, cell.kind)
 		default:
-			a, e, l := sizeArg(pick(r, []string{"sizeU", "sizeI"}), pick(r, []int{0, 1, 4}))
+			a, e, l := facadeSizeArg(facadePick(r, []string{"sizeU", "sizeI"}), facadePick(r, []int{0, 1, 4}))
 			args, encs, lits = append(args, a), append(encs, e), append(lits, l)
 		}
 		if r.chance(1, 2) && len(args) >= 2 {
@@ -977,7 +977,7 @@ func runSeqCell(o *seqOps, cell seqCell, n int, npos int, r *rng, malformed int)
 		default:
 			text = "[1, \"x\", 'c', true, 0x1f, 2.5](" + cell.kind + ")"
 		}
-		p, enc := parseSource(text)
+		p, enc := facadeParseSource(text)
 		c.parsed = &p
 		args = append(args, text)
 		encs = append(encs, "(AString "+encBytes(text)+" "+enc+")")
@@ -989,7 +989,7 @@ func runSeqCell(o *seqOps, cell seqCell, n int, npos int, r *rng, malformed int)
 		c.malformed = true
 		c.form = fmt.Sprintf("malformed-%d", malformed)
 	}
-	args, encs, lits = withNotation(npos, notation, args, encs, lits)
+	args, encs, lits = facadeWithNotation(npos, notation, args, encs, lits)
 	c.args = encs
 	c.call = fmt.Sprintf("%s[%s](%s)", cell.kind, o.name, strings.Join(lits, ", "))
 	c.mod = facadeCall(func() any { return o.module(cell.kind, args) }, func(x any) int { return o.collID(x, collArg) })
@@ -1002,24 +1002,24 @@ func runSeqCell(o *seqOps, cell seqCell, n int, npos int, r *rng, malformed int)
 			return o.class(cell.kind, classForm, cdc.Notation().Make(), classData, uint(n), collCls, clsVals)
 		}, func(x any) int { return o.collID(x, collCls) })
 		c.cls = &res
-		c.predClass = predicateClass(c.mod, res, false)
+		c.predClass = facadePredClass(c.mod, res, false)
 		switch classForm {
 		case "none":
 			c.cform = "CMake"
 		case "size":
 			c.cform = fmt.Sprintf("(CSize %d%%nat)", n)
 		case "slice":
-			c.cform = "(CFromArray " + encList(encAnys(vals)) + ")"
+			c.cform = "(CFromArray " + encList(facadeEncAnys(vals)) + ")"
 		case "seq":
-			c.cform = "(CFromSeq " + encList(encAnys(dataOrder)) + ")"
+			c.cform = "(CFromSeq " + encList(facadeEncAnys(dataOrder)) + ")"
 		case "coll":
 			c.cform = fmt.Sprintf("(CWithCollator %d%%nat [])", collID)
 		case "coll+data":
-			c.cform = fmt.Sprintf("(CWithCollator %d%%nat %s)", collID, encList(encAnys(clsVals)))
+			c.cform = fmt.Sprintf("(CWithCollator %d%%nat %s)", collID, encList(facadeEncAnys(clsVals)))
 		}
 	}
 	if c.cmpSrc && c.parsed != nil {
-		c.predSource = predicateSource(c.mod, *c.parsed, cell.kind == "Set")
+		c.predSource = facadePredSource(c.mod, *c.parsed, cell.kind == "Set")
 	} else if c.parsed != nil {
 		c.predSource = "not compared (the set is ordered by the given collator)"
 		if c.malformed {
@@ -1031,9 +1031,9 @@ func runSeqCell(o *seqOps, cell seqCell, n int, npos int, r *rng, malformed int)
 
 // ---------- catalog / map / association ----------
 
-func runPairCell(o *pairOps, cell pairCell, n int, npos int, r *rng, malformed int) *fcase {
-	c := &fcase{kind: "F" + cell.kind, tk: o.kety, tv: o.vety, form: cell.form, size: n}
-	ks, vs := genVals(o.genK, n, r), genVals(o.genV, n, r)
+func facadeRunPair(o *facadePairOps, cell facadePairCell, n int, npos int, r *rng, malformed int) *facadeCase {
+	c := &facadeCase{kind: "F" + cell.kind, tk: o.kety, tv: o.vety, form: cell.form, size: n}
+	ks, vs := facadeGenVals(o.genK, n, r), facadeGenVals(o.genV, n, r)
 	notation := cdc.Notation().Make()
 	var args []any
 	var encs, lits []string
@@ -1044,7 +1044,7 @@ func runPairCell(o *pairOps, cell pairCell, n int, npos int, r *rng, malformed i
 	pairLits := func(ks, vs []any) string {
 		items := make([]string, len(ks))
 		for i := range ks {
-			items[i] = goLit(ks[i]) + ": " + goLit(vs[i])
+			items[i] = facadeGoLit(ks[i]) + ": " + facadeGoLit(vs[i])
 		}
 		return strings.Join(items, ", ")
 	}
@@ -1060,10 +1060,10 @@ func runPairCell(o *pairOps, cell pairCell, n int, npos int, r *rng, malformed i
 	oracleAt := -1
 	addGoMap := func(ks, vs []any) {
 		m := o.gomap(ks, vs)
-		ps := pairsOf(reflect.ValueOf(m), true)
+		ps := facadePairsOf(reflect.ValueOf(m), true)
 		args = append(args, m)
-		dataPairs = encPairs(ps)
-		encs = append(encs, "(AGoMap "+encPairs(ps)+" @ORACLE@)")
+		dataPairs = facadeEncPairs(ps)
+		encs = append(encs, "(AGoMap "+facadeEncPairs(ps)+" @ORACLE@)")
 		oracleAt = len(encs) - 1
 		lits = append(lits, "map["+o.kname+"]"+o.vname+"{"+pairLits(ks, vs)+"}")
 		classData = m
@@ -1081,15 +1081,15 @@ func runPairCell(o *pairOps, cell pairCell, n int, npos int, r *rng, malformed i
 		s := o.aseq(kind, ks, vs)
 		rv := reflect.ValueOf(s)
 		isMap := kind == "Map"
-		ps := pairsOf(rv, isMap)
-		dataPairs = encPairs(ps)
+		ps := facadePairsOf(rv, isMap)
+		dataPairs = facadeEncPairs(ps)
 		args = append(args, s)
 		if isMap {
-			encs = append(encs, "(AAssocSeq "+encPairs(ps)+" @ORACLE@)")
+			encs = append(encs, "(AAssocSeq "+facadeEncPairs(ps)+" @ORACLE@)")
 			oracleAt = len(encs) - 1
 			unordered = true
 		} else {
-			encs = append(encs, "(AAssocSeq "+encPairs(ps)+" [])")
+			encs = append(encs, "(AAssocSeq "+facadeEncPairs(ps)+" [])")
 		}
 		lits = append(lits, kind+"["+o.kname+","+o.vname+"]{"+pairLits(ks, vs)+"}")
 		classData = s
@@ -1097,10 +1097,10 @@ func runPairCell(o *pairOps, cell pairCell, n int, npos int, r *rng, malformed i
 	addSource := func(ks, vs []any, kind string) {
 		items := make([]string, len(ks))
 		for i := range ks {
-			items[i] = litAny(ks[i]) + ": " + litAny(vs[i])
+			items[i] = facadeLit(ks[i]) + ": " + facadeLit(vs[i])
 		}
-		text := sourceText(items, true, kind, r.chance(1, 5))
-		p, enc := parseSource(text)
+		text := facadeSourceText(items, true, kind, r.chance(1, 5))
+		p, enc := facadeParseSource(text)
 		c.parsed = &p
 		args = append(args, text)
 		encs = append(encs, "(AString "+encBytes(text)+" "+enc+")")
@@ -1128,13 +1128,13 @@ func runPairCell(o *pairOps, cell pairCell, n int, npos int, r *rng, malformed i
 	}
 	switch malformed {
 	case 1:
-		m := pick(r, []int{0, 1, 2, 3})
-		eks, evs := genVals(o.genK, m, r), genVals(o.genV, m, r)
+		m := facadePick(r, []int{0, 1, 2, 3})
+		eks, evs := facadeGenVals(o.genK, m, r), facadeGenVals(o.genV, m, r)
 		switch r.intn(4) {
 		case 0:
 			addASlice(eks, evs)
 		case 1:
-			addASeq(pick(r, []string{"Array", "List", "Catalog"}), eks, evs)
+			addASeq(facadePick(r, []string{"Array", "List", "Catalog"}), eks, evs)
 		case 2:
 			if oracleAt < 0 && cell.kind == "Map" { // (one oracle per call; a catalog's order would need the winner's)
 				addGoMap(eks, evs)
@@ -1185,7 +1185,7 @@ func runPairCell(o *pairOps, cell pairCell, n int, npos int, r *rng, malformed i
 		default:
 			text = `["a": 1, 2: "b", 'c': true, 2.5: 0x1f, true: 'd', 0x2: 2.5](` + cell.kind + ")"
 		}
-		_, enc := parseSource(text)
+		_, enc := facadeParseSource(text)
 		args = append(args, text)
 		encs = append(encs, "(AString "+encBytes(text)+" "+enc+")")
 		lits = append(lits, strconv.Quote(text))
@@ -1199,7 +1199,7 @@ func runPairCell(o *pairOps, cell pairCell, n int, npos int, r *rng, malformed i
 			c.parsed = nil
 		}
 	}
-	args, encs, lits = withNotation(npos, notation, args, encs, lits)
+	args, encs, lits = facadeWithNotation(npos, notation, args, encs, lits)
 	if npos == 1 && oracleAt >= 0 {
 		oracleAt++
 	}
@@ -1216,7 +1216,7 @@ func runPairCell(o *pairOps, cell pairCell, n int, npos int, r *rng, malformed i
 	if classForm != "" {
 		res := facadeCall(func() any { return o.class(cell.kind, classForm, cdc.Notation().Make(), classData, nil, nil) }, nil)
 		c.cls = &res
-		c.predClass = predicateClass(c.mod, res, unordered)
+		c.predClass = facadePredClass(c.mod, res, unordered)
 		// unordered data: the class-level call iterates in an order of its own, taken from ITS result
 		oracle := "[]"
 		if res.oc == ocRet && cell.kind == "Catalog" {
@@ -1238,13 +1238,13 @@ func runPairCell(o *pairOps, cell pairCell, n int, npos int, r *rng, malformed i
 		}
 	}
 	if c.cmpSrc && c.parsed != nil {
-		c.predSource = predicateSource(c.mod, *c.parsed, false)
+		c.predSource = facadePredSource(c.mod, *c.parsed, false)
 	}
 	return c
 }
 
-func runAssocCell(o *pairOps, npos int, r *rng, malformed int) *fcase {
-	c := &fcase{kind: "FAssociation", tk: o.kety, tv: o.vety, form: "kv", size: 2}
+func facadeRunAssoc(o *facadePairOps, npos int, r *rng, malformed int) *facadeCase {
+	c := &facadeCase{kind: "FAssociation", tk: o.kety, tv: o.vety, form: "kv", size: 2}
 	k, v := o.genK(r), o.genV(r)
 	for v == nil {
 		v = o.genV(r)
@@ -1252,7 +1252,7 @@ func runAssocCell(o *pairOps, npos int, r *rng, malformed int) *fcase {
 	notation := cdc.Notation().Make()
 	args := []any{k, v}
 	encs := []string{"(AVal " + encVal(k) + ")", "(AVal " + encVal(v) + ")"}
-	lits := []string{o.kname + "(" + goLit(k) + ")", o.vname + "(" + goLit(v) + ")"}
+	lits := []string{o.kname + "(" + facadeGoLit(k) + ")", o.vname + "(" + facadeGoLit(v) + ")"}
 	classForm := "kv"
 	switch malformed {
 	case 1: // one argument only / three arguments
@@ -1260,7 +1260,7 @@ func runAssocCell(o *pairOps, npos int, r *rng, malformed int) *fcase {
 			args, encs, lits = args[:1], encs[:1], lits[:1]
 		} else {
 			x := o.genK(r)
-			args, encs, lits = append(args, x), append(encs, "(AVal "+encVal(x)+")"), append(lits, o.kname+"("+goLit(x)+")")
+			args, encs, lits = append(args, x), append(encs, "(AVal "+encVal(x)+")"), append(lits, o.kname+"("+facadeGoLit(x)+")")
 		}
 		classForm = ""
 	case 2: // an argument of another type (a Go int, a pointer, nil)
@@ -1290,7 +1290,7 @@ func runAssocCell(o *pairOps, npos int, r *rng, malformed int) *fcase {
 	}
 	switch npos {
 	case 1, 2:
-		args, encs, lits = withNotation(npos, notation, args, encs, lits)
+		args, encs, lits = facadeWithNotation(npos, notation, args, encs, lits)
 	case 3: // between key and value
 		if len(args) >= 2 {
 			args = append([]any{args[0], notation}, args[1:]...)
@@ -1304,7 +1304,7 @@ func runAssocCell(o *pairOps, npos int, r *rng, malformed int) *fcase {
 	if classForm != "" {
 		res := facadeCall(func() any { return o.class("Association", "kv", cdc.Notation().Make(), nil, k, v) }, nil)
 		c.cls = &res
-		c.predClass = predicateClass(c.mod, res, false)
+		c.predClass = facadePredClass(c.mod, res, false)
 	}
 	return c
 }
@@ -1321,13 +1321,13 @@ func genFacade(prop string, seed uint64, tier, outDir string, count int) error {
 		}
 	}
 	meta := genMeta{Property: prop, Seed: seed, Tier: tier, OpHist: map[string]int{}, OutHist: map[string]int{}, TypeHist: map[string]int{}, LenHist: map[string]int{}, Extra: map[string]any{}}
-	var cases []*fcase
+	var cases []*facadeCase
 	seen := map[string]bool{}
 	var predViolations []string
 	nviol := 0
 	// strata: every (kind, form) cell in turn; types, sizes and notation positions rotate with
 	// random phases so that every seed visits another part of the cross product
-	ncells := len(seqCells) + len(pairCells) + 10
+	ncells := len(facadeSeqCells) + len(facadePairCells) + 10
 	phT, phS, phN := r.intn(7), r.intn(len(facadeSizes)), r.intn(3)
 	phK := r.intn(49)
 	for i := 0; i < count; i++ {
@@ -1343,22 +1343,22 @@ func genFacade(prop string, seed uint64, tier, outDir string, count int) error {
 		if cr.chance(1, 8) {
 			malformed = []int{1, 1, 2, 3}[cr.intn(4)]
 		}
-		var c *fcase
+		var c *facadeCase
 		switch {
-		case cell < len(seqCells):
-			o := seqTable[(round+cell*3+phT)%7]
-			c = runSeqCell(o, seqCells[cell], n, npos, cr, malformed)
-		case cell < len(seqCells)+len(pairCells):
-			o := pairTable[(round*5+cell*11+phK)%49]
-			c = runPairCell(o, pairCells[cell-len(seqCells)], n, npos, cr, malformed)
+		case cell < len(facadeSeqCells):
+			o := facadeSeqTable[(round+cell*3+phT)%7]
+			c = facadeRunSeq(o, facadeSeqCells[cell], n, npos, cr, malformed)
+		case cell < len(facadeSeqCells)+len(facadePairCells):
+			o := facadePairTable[(round*5+cell*11+phK)%49]
+			c = facadeRunPair(o, facadePairCells[cell-len(facadeSeqCells)], n, npos, cr, malformed)
 		default:
-			o := pairTable[(round*3+(cell-len(seqCells)-len(pairCells))*17+phK)%49]
-			c = runAssocCell(o, (round+cell)%4, cr, malformed)
+			o := facadePairTable[(round*3+(cell-len(facadeSeqCells)-len(facadePairCells))*17+phK)%49]
+			c = facadeRunAssoc(o, (round+cell)%4, cr, malformed)
 		}
 		cases = append(cases, c)
 		meta.Steps += 1
 		meta.OpHist[strings.TrimPrefix(c.kind, "F")+":"+c.form]++
-		oc := ocName(c.mod.oc)
+		oc := facadeOcName(c.mod.oc)
 		if c.malformed {
 			oc += " (malformed call)"
 		}
